@@ -534,6 +534,9 @@ func runFaults(e *env) {
 	fixed := [][]string{
 		{"new p1w s0 6d61696e", "next 0 0 2", "remark 0 72656e616d6564", "genpub -", "delete 0 p1w"},
 		{"new p1w s0 -", "new p1w s1 78", "chpriv p1w p2w", "next 0 0 1", "export 0 p2w", "delete 0 p2w", "import 0 p2w - none"},
+		// a keystore deleted and created again from the same seed with fewer addresses: nothing of the first
+		// incarnation may be left in the store
+		{"new p1w s0 -", "next 0 0 3", "next 0 1 2", "delete 0 p1w", "new p1w s0 -", "next 0 0 1"},
 		// the same kinds of operation on an UNLOCKED wallet (a failed operation must also leave the keys usable as before)
 		{"new p1w s0 -", "next 0 0 2", "unlock p1w", "next 0 1 1", "remark 0 72656e616d6564", "genpub -", "delete 0 p1w"},
 		{"new p1w s0 -", "new p1w s1 78", "unlock p1w", "chpriv p1w p2w", "export 0 p2w", "delete 1 p2w", "import 0 p2w - none", "lock"},
